@@ -1,6 +1,6 @@
 """C17  Exactly one subcommand is selected and only its settings survive.
 
-Domain   generated subcommand trees (depth 1-3, 1-3 subcommands per level, required or optional, global options and a config argument at
+Domain   generated subcommand trees (depth 1-4, 1-3 subcommands per level, required or optional, global options and a config argument at
          every level; sub-parsers attached in level order) x inputs that select, omit, or give settings for several subcommands through
          the command line (path of names, --cfg string before it, sub-level --cfg), config text, object, and the environment
          (PREFIX_SUB / PREFIX_A__O1 variables, with and without a command line path).
